@@ -28,6 +28,13 @@ return falls through to the statements that follow), local assignments become `l
 Anything outside this grammar is reported as UNTRANSLATABLE and a stub is emitted that makes the
 bridge lemma fail (so the obligation is reported broken and the failing-input search runs).
 The dictionary above is part of the trusted base.
+
+T-f (classes further down, each with its own small dictionary in its docstring / DICT table): `PartialJoin.columns_required`,
+`PartialJoin.commute`, `Materialization.simplify`, `Transfer.simplify`, `Chain._begin_apply` -> Gen/RelOps.lean;
+`PartialJoin._begin_apply` (monadic, self-recursive: generated with a recursion budget), `Join.applied_common_columns`
+(set comprehension over key columns), `Join._begin_apply`, `Join._finish_apply` -> Gen/JoinOps.lean;
+`sql.Select.apply_skip` (over the model's `Slots` record) -> Gen/SqlOps.lean.  `REL_JOB_MODULE` says which generated
+module a method goes to; translation problems are attributed per module.
 """
 from __future__ import annotations
 
